@@ -72,7 +72,7 @@ def void_deal(k: int):
     return {'N': frozenset(a[:7] + b[:6]), 'E': frozenset(a[7:] + b[6:]), 'S': frozenset(c[:7] + d[:6]), 'W': frozenset(c[7:] + d[6:])}
 
 
-def write(w: PbnWriter, spec: dict):
+def write(w: PbnWriter, spec: dict, hands=None):
     con = spec['contract']
     if con == 'passout':
         contract = Contract(final_bid=None, vul=adapt.VUL[spec['vul']], declarer=None)
@@ -89,7 +89,7 @@ def write(w: PbnWriter, spec: dict):
     wn, nn, en, sn = spec['names']
     w.write_board_result(event=spec['event'], site=spec['site'], date=datetime.date(*spec['date']), board_num=spec['num'],
                          west_player=wn, north_player=nn, east_player=en, south_player=sn, dealer=adapt.PL[spec['dealer']],
-                         deal=adapt.hands_obj(deal_of(spec)), scoring=Scoring[spec['scoring']], contract=contract, taken_tricks=taken)
+                         deal=hands if hands is not None else adapt.hands_obj(deal_of(spec)), scoring=Scoring[spec['scoring']], contract=contract, taken_tricks=taken)
 
 
 def expected_tags(spec: dict) -> dict:
@@ -109,8 +109,21 @@ def case(specs: List[dict], header: bool, c: Counter, tag: str):
         w = PbnWriter(buf)
         if header:
             w.write_header()
-        for s in specs:
-            write(w, s)
+        shared_hands = None
+        for i, s in enumerate(specs):
+            if tag == 'two-writers' and i:
+                w = PbnWriter(buf)           # a second session appends to the same stream through its own writer object
+            if tag == 'hands-object-reused':
+                # the caller keeps ONE Hands object and deals into it again for every board
+                d = deal_of(s)
+                if shared_hands is None:
+                    shared_hands = adapt.hands_obj(d)
+                else:
+                    for seat, attr in zip(SEATS, ('north', 'east', 'south', 'west')):
+                        setattr(shared_hands, attr, {adapt.CARDS[x] for x in d[seat]})
+                write(w, s, hands=shared_hands)
+            else:
+                write(w, s)
     except Exception as e:  # noqa
         c.violate(f'write:{tag}', f'writing {len(specs)} board result(s) raised {type(e).__name__}: {e}', rp)
         return
@@ -177,6 +190,10 @@ def cases(tier: str, seed: int):
     for n in (1, 2, 3):
         for header in (False, True):
             out.append((D[:n], header, 'sequence'))
+    for n in (2, 3):
+        for header in (False, True):
+            out.append((D[:n], header, 'two-writers'))
+            out.append(([var(i, deal=seed * 50 + i + 11, dealer=SEATS[(i + n) % 4]) for i in range(n)], header, 'hands-object-reused'))
     pool = [var(0), var(1, contract='passout'), var(2, contract=['7NT', 2], result=13, names=["O'Neil", 'a  b', 'x', '']), var(0, contract='passout-pass', num=17)]
     for a, b in itertools.product(pool, repeat=2):
         out.append(([a, b], False, 'pairs'))
